@@ -173,6 +173,7 @@ var c10Mut = []func(r *Rng, h int) Sx{
 	func(r *Rng, h int) Sx { return L(A("abort")) },
 	func(r *Rng, h int) Sx { return L(A("abs"), I(403)) },
 	func(r *Rng, h int) Sx { return L(A("w"), L(A("fl"))) },
+	func(r *Rng, h int) Sx { return L(A("hijack")) },
 }
 
 func c10Gen(r *Rng, tier string, i int) Sx {
